@@ -436,7 +436,7 @@ def utc_program(rng, x, count, udf, rate, base=0, tbase=0, first_off=0, nq=40, e
 STAT_TYPES = ["u1", "u4", "u8", "u16", "u32", "u64", "i4", "i8", "i16", "i32", "i64", "f32", "f64"]
 
 
-def stats_program(rng, x, dt, total, geometry=None, nreq=40, first=0, base=0):
+def stats_program(rng, x, dt, total, geometry=None, nreq=40, first=0, base=0, offset=0):
     """one signal of a structured stream (ramp / bit pattern) and statistics requests aimed at
     every summary level, unaligned starts/ends, windows ending at the last sample"""
     w = WIDTH[dt]
@@ -450,6 +450,10 @@ def stats_program(rng, x, dt, total, geometry=None, nreq=40, first=0, base=0):
         gen = rng.choice([["ramp", 127], ["ramp", 13], ["ramp", 7], ["bit", 9]])
     else:
         gen = rng.choice([["ramp", 251], ["ramp", 13], ["ramp", 7], ["ramp", 11], ["bit", 3], ["bit", 17], ["ramp", 100]])
+    if offset:
+        # the same ramp riding on a large offset (64-bit-summary types): mean / min / max are judged after subtracting
+        # the offset, the deviation as it is - a variance computed as E[x^2] - E[x]^2 cancels catastrophically here
+        gen = ["rampo", rng.choice([7, 11, 13, 100]), offset]
     spd, sdf, eps, sumdf = geometry or (small_geometry(rng, dt)[0], 0 if w <= 8 else 10, 10, 10)
     if geometry is None:
         spd, sdf, eps, sumdf = small_geometry(rng, dt)
